@@ -275,6 +275,17 @@ def evaluate(ctx, cases, label, kmax=9, n_random=6, big_F=200, forced=None, big_
         for sso in (False, True):
             try:
                 trees[sso] = plaquette_spanning_tree(lat, shortest_edges_only=sso)
+                # a returned tree belongs to the caller: overwriting it must not change what the next call returns
+                if isinstance(trees[sso], np.ndarray) and trees[sso].size and trees[sso].flags.writeable:
+                    keep = trees[sso].copy()
+                    trees[sso][...] = -7
+                    again = plaquette_spanning_tree(lat, shortest_edges_only=sso)
+                    bad2 = tree_spec(lat, again) if plaquette_graph_connected(lat) and not tree_spec(lat, keep) else []
+                    if bad2:
+                        res.violation("second-call-" + bad2[0][0], f"plaquette_spanning_tree(shortest_edges_only={sso}): the first call returned a valid tree; after the caller "
+                                      f"overwrote that array, a second call on the same lattice returned {np.asarray(again)[:6].tolist()}: {bad2[0][1]}",
+                                      dict(case, shortest_edges_only=sso, probe="overwrite-first-result"))
+                    trees[sso] = keep
             except Exception as e:
                 trees[sso] = e
         tls = []
